@@ -67,6 +67,22 @@ func main() {
 				}
 			}
 		}
+		if v.Scenario == r4name {
+			for _, c := range r4cases() {
+				if len(v.Trace) == 1 && c.String() == v.Trace[0] {
+					err := runR4(c)
+					var vv *vk.Violation
+					if errors.As(err, &vv) {
+						vv.Trace, vv.Scenario = v.Trace, v.Scenario
+						r.Report(vv)
+					} else if err != nil {
+						r.HarnessError("replay: %v", err)
+					} else {
+						vk.NoRepro()
+					}
+				}
+			}
+		}
 		if v.Scenario == r3name {
 			for _, c := range r3cases() {
 				if len(v.Trace) == 1 && c.String() == v.Trace[0] {
